@@ -33,6 +33,92 @@ CLAIMS = {
     },
 }
 
+CLAIMS.update({
+    'C01': {
+        'text': 'Decides, for all argument strings at once, the structural '
+                'clauses: (ESC-MAKE) at every site where Makefile/Writer '
+                'emits script-derived text, every Syntax member reaching the '
+                'site (through defaults and all call sites) escapes every GNU '
+                'Make metacharacter of that lexical context -- the writer\'s '
+                'table is extracted from Writer.escape_str by summarising it '
+                'per Syntax member, the reader\'s table is sa/tables.py; '
+                '(WRITE-FLOW) in Writer.write only guarded literal text, '
+                'escape_str results or nested-writer output reach the stream, '
+                'shell quoting precedes Make escaping, paths are quoted as '
+                'one unit, the "shelly" set equals the shell contexts; '
+                '(LIT-SITES, LITERAL-ORIGIN) text exempt from escaping is '
+                'built from constants and sanitised identifiers only; '
+                '(SH-SAFE) the characters the sh quoter leaves bare are not '
+                'special to sh or in first recipe position, and the quote '
+                'replacement lexes back to a quote. It does not decide the '
+                'round trip quote -> make -> sh for every string.',
+        'note': _TB + 'Not decided: that sh un-quoting o Make expansion o '
+                'quote is the identity over all strings (incl. wrap_quotes '
+                'de-duplication). Known findings F1, F10, F11 are listed in '
+                'KNOWN_FINDINGS.txt.',
+        'technique': 'per-Syntax summarisation of escape_str into '
+                     'substitution chains + regex class analysis vs. reader '
+                     'tables; lexical-context classification of emission '
+                     'sites; taint-style origin rule for literals',
+    },
+    'C02': {
+        'text': 'Same rule set as C01 on the Ninja backend: (ESC-NINJA) every '
+                'variable value written by NinjaFile escapes $, for every '
+                'Syntax member reaching the site; (WRITE-FLOW) on '
+                'ninja.syntax.Writer.write; (LIT-SITES) incl. the dominance '
+                'of the rule-name validation; (LITERAL-ORIGIN); (SH-SAFE); '
+                '(CMD-INDIRECTION) command_build defines the generic rule as '
+                'exactly the reference $cmd and passes the real command as a '
+                'build-scoped variable so it is $-evaluated once. Decides '
+                'these structural clauses, not the evaluated command lines.',
+        'note': _TB + 'Not decided: round trip over all strings; Windows '
+                'cmd /s /c wrapping (folded away by the posix assumption). '
+                'Ninja itself is not installed; its lexical table is cited '
+                'from the manual.',
+        'technique': 'same engine as C01 on backends/ninja/syntax.py + '
+                     'structural check of command_build',
+    },
+    'C04': {
+        'text': 'Decides the path half of the escaping rules for both '
+                'backends: every Make path position (rule targets, '
+                'prerequisites, order-only, .PHONY, include operands, '
+                'find_files depfile entries, path variables) and every Ninja '
+                'build-line path is written with a Syntax member whose '
+                'escape chain covers all metacharacters of that position '
+                '(ESC-MAKE/ESC-NINJA), names left of a colon use '
+                'Syntax.target/output and right of it dependency/input '
+                '(SYNTAX-POSITION), paths are realised and quoted as one unit '
+                '(WRITE-FLOW), and clean passes Path objects for all targets '
+                '(CLEAN-PATHS).',
+        'note': _TB + 'Not decided: what compilers write into .d files / '
+                'depfixer agreement; that the tool then finds the file. '
+                'Known findings: srcdir containing #, file names containing '
+                'a single quote.',
+        'technique': 'escape-table coverage per lexical position (ast + '
+                     're._parser) for make and ninja writers',
+    },
+    'C17': {
+        'text': 'Decides structural clauses of the .pc writer: (ESC-PC) every '
+                'value site vs. pkg-config\'s comment character; '
+                '(PC-FIELD-SYNTAX) Cflags/Libs/Libs.private use Syntax.shell '
+                'and come from compiler/linker flags in pkg-config mode, '
+                'descriptive fields use Syntax.variable; (WRITE-FLOW) on '
+                'shell.syntax.Writer.write; (LITERAL-ORIGIN); (PC-OPS) every '
+                'operator surviving simplify_specifiers maps into '
+                'pkg-config\'s operator set and all others are rejected; '
+                '(PC-REQ-SINGLE) requires use split(single=True) which '
+                'raises on several constraints; (PC-VARS) each variant '
+                'defines the variables its paths can reference; '
+                '(UNORDERED-ITER) no hash-ordered iteration in '
+                'builtins.pkg_config/versioning reaches the file.',
+        'note': _TB + 'Not decided: what pkg-config prints; equivalence of '
+                'simplified specifier sets over all versions. Known finding '
+                'F9 (#); F7 repaired by a fix: commit.',
+        'technique': 'escape-table coverage, field/syntax table check, '
+                     'operator-table agreement, unordered-iteration dataflow',
+    },
+})
+
 _PENDING = 'check not built yet in this session (design in DESIGN.md)'
 
 NOT_APPLICABLE = {
